@@ -38,14 +38,16 @@ def gen_labels(rng, n, kind=None, order=None):
     return labs
 
 
-def gen_values(rng, shape, dtype="f8", nan_rate=0.15):
+def gen_values(rng, shape, dtype="f8", nan_rate=0.15, inf_rate=0.0):
     """Nested list of small numbers (exact in floating point)."""
     n = 1
     for s in shape:
         n *= s
     flat = []
     for _ in range(n):
-        if dtype in ("f8", "f4"):
+        if dtype in ("f8", "f4") and inf_rate and rng.random() < inf_rate:
+            flat.append(float("inf") if rng.random() < 0.5 else float("-inf"))
+        elif dtype in ("f8", "f4"):
             flat.append(float("nan") if rng.random() < nan_rate else float(rng.randint(-4, 9)))
         elif dtype in ("i8", "i4"):
             flat.append(rng.randint(-4, 9))
@@ -110,7 +112,7 @@ def gen_array_spec(rng, cfg, dims=None, labels=None, dtype=None, min_rank=0):
     dtype = dtype or rng.choice(cfg.get("dtypes", ["f8", "f8", "i8", "i4", "b1", "O"]))
     shape = [len(l) for l in labels]
     spec = {"dims": list(dims), "labels": labels, "dtype": dtype,
-            "values": gen_values(rng, shape, dtype, cfg.get("nan_rate", 0.15))}
+            "values": gen_values(rng, shape, dtype, cfg.get("nan_rate", 0.15), cfg.get("inf_rate", 0.0))}
     md = cfg.get("meta_density", 0.5)
     attrs = gen_attrs(rng, md, cfg.get("mutable_meta", False))
     if attrs:
